@@ -11,10 +11,10 @@ Proof.
   induction l as [|[k [v|f a]] l IH]; [reflexivity| |].
   - change (plain_of ((k, Plain v) :: l)) with ((k, v) :: plain_of l).
     change (ias_of ((k, Plain v) :: l)) with (ias_of l).
-    cbn [keys map fst] in *. rewrite !cnt_cons. destruct (N.eq_dec k x); lia.
+    unfold keys in *. cbn [map fst]. rewrite !cnt_cons. destruct (N.eq_dec k x); lia.
   - change (plain_of ((k, IA f a) :: l)) with (plain_of l).
     change (ias_of ((k, IA f a) :: l)) with ((k, CFn f a) :: ias_of l).
-    cbn [keys map fst] in *. rewrite !cnt_cons. destruct (N.eq_dec k x); lia.
+    unfold keys in *. cbn [map fst]. rewrite !cnt_cons. destruct (N.eq_dec k x); lia.
 Qed.
 
 Lemma keys_der_comps m : keys (der_comps m) = keys (m_der m).
